@@ -9,7 +9,7 @@ use allsorts::binary::{U16Be, U8};
 use allsorts::cff::cff2;
 use allsorts::cff::{
     self, CustomCharset, CustomEncoding, Dict, DictDefault, DictDelta, FDSelect, IndexU16, IndexU32, Operand,
-    Operator, Range, CFF,
+    CFFVariant, Charset, Operator, Range, CFF,
 };
 use allsorts::error::WriteError;
 use allsorts::post::{self, PostTable};
@@ -21,7 +21,7 @@ use allsorts::tables::glyf::{
 };
 use allsorts::tables::loca::{self, LocaTable};
 use allsorts::tables::os2::{self, FsSelection, Os2};
-use allsorts::tables::variable_fonts::ItemVariationStore;
+use allsorts::tables::variable_fonts::{ItemVariationData, ItemVariationStore, VariationRegionList};
 use allsorts::tables::{
     owned as otables, CvtTable, F2Dot14, Fixed, HeadTable, HheaTable, HmtxTable, IndexToLocFormat, LongHorMetric,
     MacStyle, MaxpTable, MaxpVersion1SubTable, NameTable,
@@ -724,13 +724,15 @@ pub struct MiniCff {
     pub private: Vec<u8>,                  // Private DICT bytes (without Subrs)
     pub top_extra: Vec<u8>,                // extra Top DICT bytes, placed first
     pub glyphs: usize,
+    pub strings: Vec<Vec<u8>>,             // String INDEX (SIDs 391 ..)
 }
 
 pub fn mini_cff(o: &MiniCff) -> Vec<u8> {
     let nglyphs = o.glyphs.max(1);
     let name = mk_index(&[b"A".to_vec()], 1, false);
-    let strings = mk_index(&[], 1, false);
-    let gsubr = mk_index(&vec![vec![11u8]; o.gsubrs], 1, false);
+    let strings = mk_index(&o.strings, 1, false);
+    // global subroutines differ from one another (and from the strings): a structure read at the wrong place shows
+    let gsubr = mk_index(&(0..o.gsubrs).map(|i| { let mut v = vec![139u8; i % 3]; v.push(11); v }).collect::<Vec<_>>(), 1, false);
     let cs = mk_index(&vec![vec![14u8]; nglyphs], 1, false);
     // Private DICT followed by its local subrs (offset relative to the start of the DICT)
     let mut private = o.private.clone();
@@ -863,6 +865,149 @@ fn run_glyphp(case: &Value) -> Value {
                 let rem = left(&c2);
                 let again = again_of(&bytes, write_vec(|b| Glyph::write(b, t)));
                 Ok(json!({"res": "Ok", "back1": back1, "rem1": rem1, "bytes": jb(&bytes), "back": back, "rem": rem, "again": again}))
+            }
+        }
+    });
+    match out {
+        Outcome::Returned(Ok(v)) => v,
+        Outcome::Returned(Err(e)) => fail(format!("ReadErr:{}", e)),
+        Outcome::Panicked(m) => fail(format!("Panic:{}", panic_key(&m))),
+    }
+}
+
+
+// -- the parts of an item variation store on their own ------------------------------------------------
+
+/// ItemVariationData: TLC's bytes are parsed, written, parsed again. The fields are private: what can be
+/// observed is how much was consumed, for how many indices `delta_set` has a row, and the bytes written.
+fn run_ivd(case: &Value) -> Value {
+    let src = gb(case, "src");
+    let probes = gi(&case["exp"], "probes") as u16;
+    let fail = |res: String| json!({"res": res, "rem1": -1, "rows1": -1, "bytes": [], "rem": -1, "rows": -1, "again": "n/a"});
+    let out = guarded(|| -> Result<Value, String> {
+        let rows = |d: &ItemVariationData<'_>| (0..probes).filter(|i| d.delta_set(*i).is_some()).count();
+        let mut c = ReadScope::new(&src).ctxt();
+        let d = c.read::<ItemVariationData<'_>>().map_err(|e| format!("src {:?}", e))?;
+        let (rem1, rows1) = (left(&c), rows(&d));
+        match write_vec(|b| ItemVariationData::write(b, &d)) {
+            Err(e) => Ok(json!({"res": "Err", "err": werr(&e), "rem1": rem1, "rows1": rows1, "bytes": [], "rem": -1, "rows": -1, "again": "n/a"})),
+            Ok(bytes) => {
+                let mut c2 = ReadScope::new(&bytes).ctxt();
+                let t = c2.read::<ItemVariationData<'_>>().map_err(|e| format!("reread {:?}", e))?;
+                let again = again_of(&bytes, write_vec(|b| ItemVariationData::write(b, &t)));
+                Ok(json!({"res": "Ok", "rem1": rem1, "rows1": rows1, "bytes": jb(&bytes), "rem": left(&c2), "rows": rows(&t), "again": again}))
+            }
+        }
+    });
+    match out {
+        Outcome::Returned(Ok(v)) => v,
+        Outcome::Returned(Err(e)) => fail(format!("ReadErr:{}", e)),
+        Outcome::Panicked(m) => fail(format!("Panic:{}", panic_key(&m))),
+    }
+}
+
+fn run_ivr(case: &Value) -> Value {
+    let src = gb(case, "src");
+    let fail = |res: String| json!({"res": res, "rem1": -1, "nreg1": -1, "bytes": [], "rem": -1, "nreg": -1, "again": "n/a"});
+    let out = guarded(|| -> Result<Value, String> {
+        let mut c = ReadScope::new(&src).ctxt();
+        let d = c.read::<VariationRegionList<'_>>().map_err(|e| format!("src {:?}", e))?;
+        let (rem1, nreg1) = (left(&c), d.variation_regions.len());
+        match write_vec(|b| VariationRegionList::write(b, &d)) {
+            Err(e) => Ok(json!({"res": "Err", "err": werr(&e), "rem1": rem1, "nreg1": nreg1, "bytes": [], "rem": -1, "nreg": -1, "again": "n/a"})),
+            Ok(bytes) => {
+                let mut c2 = ReadScope::new(&bytes).ctxt();
+                let t = c2.read::<VariationRegionList<'_>>().map_err(|e| format!("reread {:?}", e))?;
+                let again = again_of(&bytes, write_vec(|b| VariationRegionList::write(b, &t)));
+                Ok(json!({"res": "Ok", "rem1": rem1, "nreg1": nreg1, "bytes": jb(&bytes), "rem": left(&c2), "nreg": t.variation_regions.len(), "again": again}))
+            }
+        }
+    });
+    match out {
+        Outcome::Returned(Ok(v)) => v,
+        Outcome::Returned(Err(e)) => fail(format!("ReadErr:{}", e)),
+        Outcome::Panicked(m) => fail(format!("Panic:{}", panic_key(&m))),
+    }
+}
+
+// -- a whole CFF table -----------------------------------------------------------------------------------
+
+const OFFSET_OPS: [i64; 7] = [15, 16, 17, 18, 19, 3108, 3109];
+
+fn ops_of<T: DictDefault>(d: &Dict<T>) -> Vec<i64> {
+    d.iter().map(|(op, _)| op_code(*op)).filter(|o| !OFFSET_OPS.contains(o)).collect()
+}
+
+fn facts_of<'a>(objs: impl Iterator<Item = &'a [u8]>) -> Value {
+    Value::Array(objs.map(obj_facts).collect())
+}
+
+/// What allsorts reports of a CFF table it has read (the vocabulary of CffCodec!CffFacts).
+pub fn cff_facts(c: &CFF<'_>) -> Result<Value, String> {
+    let f = c.fonts.first().ok_or("no font")?;
+    let sids: Vec<u16> = match &f.charset {
+        Charset::ISOAdobe => vec![],
+        Charset::Custom(CustomCharset::Format0 { glyphs }) => glyphs.iter().collect(),
+        _ => vec![65535],
+    };
+    let mut sidstr = Vec::new();
+    for (op, args) in f.top_dict.iter() {
+        if (0..=4).contains(&op_code(*op)) && args.len() == 1 {
+            if let Operand::Integer(sid) = args[0] {
+                sidstr.push(if sid < 391 {
+                    json!([-1, 0, 0, 0])
+                } else {
+                    match c.string_index.read_object(sid as usize - 391) {
+                        Some(s) => obj_facts(s),
+                        None => json!([-2, 0, 0, 0]),
+                    }
+                });
+            }
+        }
+    }
+    let n = f.char_strings_index.len();
+    let lsf = |i: &Option<cff::MaybeOwnedIndex<'_>>| match i {
+        Some(i) => (true, facts_of(i.iter())),
+        None => (false, json!([])),
+    };
+    let (privs, fdops, fdsel) = match &f.data {
+        CFFVariant::Type1(t) => {
+            let (has, ls) = lsf(&t.local_subr_index);
+            (vec![json!({"ops": ops_of(&t.private_dict), "hasLs": has, "ls": ls})], vec![], vec![])
+        }
+        CFFVariant::CID(cid) => {
+            let mut privs = Vec::new();
+            for (p, l) in cid.private_dicts.iter().zip(cid.local_subr_indices.iter()) {
+                let (has, ls) = lsf(l);
+                privs.push(json!({"ops": ops_of(p), "hasLs": has, "ls": ls}));
+            }
+            let mut fdops = Vec::new();
+            for i in 0..cid.font_dict_index.len() {
+                fdops.push(json!(ops_of(&cid.font_dict(i).map_err(pe)?)));
+            }
+            let sel: Vec<i64> = (0..n as u16).map(|g| cid.fd_select.font_dict_index(g).map(|x| x as i64).unwrap_or(-1)).collect();
+            (privs, fdops, sel)
+        }
+    };
+    Ok(json!({"names": facts_of(c.name_index.iter()), "strs": facts_of(c.string_index.iter()), "gs": facts_of(c.global_subr_index.iter()),
+              "cs": facts_of(f.char_strings_index.iter()), "sids": sids, "topops": ops_of(&f.top_dict), "sidstr": sidstr,
+              "privs": privs, "fdops": fdops, "fdsel": fdsel}))
+}
+
+fn run_cfft(case: &Value) -> Value {
+    let src = gb(case, "src");
+    let none = json!([]);
+    let fail = |res: String| json!({"res": res, "back1": none, "bytes": [], "back": none, "again": "n/a"});
+    let out = guarded(|| -> Result<Value, String> {
+        let c = ReadScope::new(&src).read::<CFF<'_>>().map_err(|e| format!("src {:?}", e))?;
+        let back1 = cff_facts(&c)?;
+        match write_vec(|b| CFF::write(b, &c)) {
+            Err(e) => Ok(json!({"res": "Err", "err": werr(&e), "back1": back1, "bytes": [], "back": none, "again": "n/a"})),
+            Ok(bytes) => {
+                let t = ReadScope::new(&bytes).read::<CFF<'_>>().map_err(|e| format!("reread {:?}", e))?;
+                let back = cff_facts(&t)?;
+                let again = again_of(&bytes, write_vec(|b| CFF::write(b, &t)));
+                Ok(json!({"res": "Ok", "back1": back1, "bytes": jb(&bytes), "back": back, "again": again}))
             }
         }
     });
@@ -1019,6 +1164,9 @@ pub fn codec_replay(cases: &str, trace: &str) {
         let o = match k.as_str() {
             "cffint" | "dict" | "index" | "indexo" | "charset" | "encoding" | "fdselect" | "ivs" => run_cff_kind(&k, case),
             "glyphp" => run_glyphp(case),
+            "ivd" => run_ivd(case),
+            "ivr" => run_ivr(case),
+            "cfft" => run_cfft(case),
             _ => run_table(&k, &case["v"]),
         };
         bump(&mut per_kind, k.clone());
@@ -1036,7 +1184,12 @@ pub fn codec_replay(cases: &str, trace: &str) {
         } else {
             String::new()
         };
-        tw.write(&json!({"i": i, "case": format!("{}/{}", k, case["id"]), "ev": "Gen", "a": {"k": k, "id": case["id"], "var": var, "exp": case["exp"]}, "o": o}));
+        let mut a = json!({"k": k, "id": case["id"], "var": var, "exp": case["exp"]});
+        if k == "cfft" {
+            // the judge decodes TLC's table with the specification and compares what allsorts wrote with it
+            a["src"] = case["src"].clone();
+        }
+        tw.write(&json!({"i": i, "case": format!("{}/{}", k, case["id"]), "ev": "Gen", "a": a, "o": o}));
     }
     let n = tw.n;
     tw.finish();
